@@ -186,3 +186,5 @@ WORKLOADS = {"center": (_n_center, case_center), "sex": (_n_sex, case_sex)}
 _Q = {"cli.sex[report]|held": 40, "cli.call-center[plumbing]|held": 40, "CopyNumArray.center_all|held": 1500, "CopyNumArray.guess_xx|held": 600, "CopyNumArray.compare_sex_chromosomes|held": 1200,
       "commands.do_sex|held": 450, "CopyNumArray.shift_xx|held": 1800, "CopyNumArray.expect_flat_log2|held": 1200}
 QUOTAS = {"quick": _Q, "thorough": _Q}
+
+INTERNAL_MONITORS = {"CopyNumArray.compare_sex_chromosomes": []}
